@@ -21,6 +21,17 @@ func main() {
 	if len(os.Args) > 4 && os.Args[1] == "classes" {
 		os.Exit(debugClasses(os.Args[2], os.Args[3:]))
 	}
+	if len(os.Args) > 2 && os.Args[1] == "decodescope" {
+		p, err := loadProgram(os.Args[2], "")
+		if err != nil {
+			fmt.Println(err)
+			os.Exit(2)
+		}
+		for _, n := range debugScopeNames(p) {
+			fmt.Println(n)
+		}
+		os.Exit(0)
+	}
 	if len(os.Args) > 2 && os.Args[1] == "owns" {
 		os.Exit(debugOwns(os.Args[2]))
 	}
